@@ -1426,7 +1426,8 @@ class OrdinaryTableRow(TableRow):
                     logger.error(log_message)
                     raise MasterSchemaParsingError(log_message)
 
-                character_index = definitions.index("*/", character_index) + 1
+                # (The closing "*/" cannot share its "*" with the opening "/*")
+                character_index = definitions.index("*/", character_index + 2) + 1
 
             """
 
